@@ -95,6 +95,7 @@ struct Instance {
 	std::vector<TunEvent> tun_writes;
 	std::vector<std::string> system_calls;
 	uint32_t rand_state = 1;
+	std::map<std::string, std::string> env;   // environment variables visible to the hosted program (getenv)
 	std::deque<int> rand_forced;     // values the next rand() calls of this instance return (harness chooses e.g. the login challenge)
 	std::string log;
 	void *alloc_head = nullptr;
